@@ -19,7 +19,7 @@ pub fn spec() -> CheckSpec {
     CheckSpec {
         id: "C09",
         level: "fault_enumeration",
-        rule: "proptest histories of append/truncate/retrieve/sync/reopen over FreezerFiles with max_file_size 24..200, then every crash state of the tail (head data file x index file cut independently to each length in [last synced, final], missing/empty head file; exhaustive product when <= 600 pairs, else all entry/item boundaries +-1 and a random sample) re-opened and compared with a Vec<Vec<u8>> model; a case is one (history, crash state); non-trivial = the cut lies strictly inside the un-synced tail (something must be repaired) ; distinct = hash of (config, ops, cut pair)",
+        rule: "proptest histories of append/truncate/retrieve/sync/reopen over FreezerFiles with max_file_size 24..200, then every crash state of the tail (head data file x index file cut independently to each length in [last synced, final], missing/empty head file; exhaustive product when <= 600 pairs, else all entry/item boundaries +-1 and a random sample) re-opened and compared with a Vec<Vec<u8>> model; a case is one (history, crash state); a creation family re-opens directories left by a crash during the freezer's creation (INDEX cut to every length 0..12, first data file absent or empty) and then appends / retrieves / re-opens; non-trivial = the cut lies strictly inside the un-synced tail (something must be repaired) ; distinct = hash of (config, ops, cut pair)",
         assumptions: &[
             "crash model of the property statement: process death leaves each of the two files written since the last sync at some byte prefix; no torn/garbage sectors, truncations are durable",
             "index entry layout (u32 LE file id, u64 LE end offset, 12 bytes) is read by the harness to locate the head file and to count fully written items",
@@ -490,6 +490,70 @@ fn check_crash_state(
     Ok(())
 }
 
+// ------------------------------------------------------------------------------------------------
+// crash while the freezer is being created: the very first write (the 12-byte zero entry of the
+// index) is cut short, the first data file may or may not exist yet
+
+#[derive(Clone, Debug, Serialize, Deserialize)]
+pub struct CreationCase {
+    pub case: Case,
+    /// length the index file was left with (0..=12; 12 = creation completed)
+    pub index_len: u8,
+    /// 0 = no data file yet, 1 = empty first data file
+    pub head_state: u8,
+}
+
+fn creation_strategy() -> impl Strategy<Value = CreationCase> {
+    (case_strategy(), 0u8..=12, 0u8..2).prop_map(|(mut case, index_len, head_state)| {
+        case.ops.clear();
+        case.cuts.clear();
+        CreationCase { case, index_len, head_state }
+    })
+}
+
+fn creation_prop(c: &CreationCase, st: &mut Stats) -> Verdict {
+    let case = &c.case;
+    let tmp = scratch("vc09c-");
+    let dir = tmp.path().join("fz");
+    let dirp: &Path = &dir;
+    std::fs::create_dir_all(dirp).unwrap();
+    // a partial write of the all-zero first entry
+    std::fs::write(dirp.join("INDEX"), vec![0u8; c.index_len as usize]).unwrap();
+    if c.head_state == 1 {
+        std::fs::write(dirp.join(file_name(0)), b"").unwrap();
+    }
+    st.label(&format!("creation:index-len-{}", if c.index_len == 0 { "0" } else if c.index_len < 12 { "1..11" } else { "12" }));
+    if c.index_len > 0 && c.index_len < 12 {
+        st.nontrivial(&serde_json::to_string(c).unwrap_or_default());
+    }
+    if st.want_sample() {
+        st.sample(|| json!({"creation": {"index_len": c.index_len, "head_state": c.head_state, "after": case.after}}));
+    }
+    let mut fz = match open_files!(case, dirp) {
+        Ok(f) => f,
+        Err(e) => vfail!(
+            "creation:reopen-failed",
+            "freezer directory left by a crash during creation (INDEX {} bytes, first data file {}) cannot be opened: {e}",
+            c.index_len,
+            if c.head_state == 1 { "empty" } else { "absent" }
+        ),
+    };
+    if fz.number() != 1 {
+        vfail!("creation:number", "number()={} for a freezer that never stored an item", fz.number());
+    }
+    let mut model: Vec<Vec<u8>> = vec![];
+    let mut synced = dir_sizes(dirp);
+    let mut after = case.after.clone();
+    after.push(Op::Append(case.max_file_size / 2 + 1, 0xa5));
+    after.push(Op::Append(case.max_file_size / 2 + 1, 0x5a));
+    after.push(Op::Retrieve(1));
+    after.push(Op::Reopen);
+    after.push(Op::Retrieve(2));
+    apply_ops!(case, dirp, fz, model, after, synced, "creation");
+    let _ = &synced;
+    Ok(())
+}
+
 /// enumerate the crash states for a prepared history
 fn crash_states(t: &Tail, cuts: &[(u16, u16)]) -> (Vec<(Option<u64>, u64)>, bool) {
     let d_lo = t.head_synced.unwrap_or(0);
@@ -612,6 +676,9 @@ fn run(ctx: &Ctx) {
     // "slipped back into an earlier head-file" branch exists for), all sizes
     let cases = ctx.cases(400, 12000);
     ctx.run_prop("rollover", cases, rollover_strategy(), prop);
+    // crash during creation: every length of the cut first index entry
+    let cases = ctx.cases(640, 6400);
+    ctx.run_prop("creation", cases, creation_strategy(), creation_prop);
 }
 
 /// histories that end with un-synced appends crossing a roll-over
@@ -644,6 +711,10 @@ fn rollover_strategy() -> impl Strategy<Value = Case> {
 fn replay(ctx: &Ctx, sub: &str, v: &Value) -> Verdict {
     let mut st = ctx.stats.borrow_mut();
     match sub {
+        "creation" => {
+            let c: CreationCase = from_case(v)?;
+            creation_prop(&c, &mut st)
+        }
         "crash-state" => {
             let rc: ReplayCase = from_case(v)?;
             replay_case(&rc, &mut st)
